@@ -47,8 +47,8 @@ func genC10Tx(r *core.Rng) c10Tx {
 	for k := 0; k < nExisting; k++ {
 		f := formats[r.Intn(len(formats))]
 		nrows := []int{0, 1, 3, 20, 300, 4000}[r.Intn(6)]
-		if f == "ltsv" && nrows == 0 {
-			nrows = 2
+		if (f == "ltsv" || f == "json" || f == "jsonl") && nrows == 0 {
+			nrows = 2 // these formats carry the column names in the records: an empty file has no columns
 		}
 		vals := []string{"alpha", "beta", "gamma", "delta", "x", "yy", "zzz", strings.Repeat("w", 40)}
 		t := genTable(r, "t", nrows, []colProfile{{Kind: "v", Vals: vals}, {Kind: "v", Vals: vals, NullPct: 10}}, []string{"c1", "c2"})
@@ -102,7 +102,11 @@ func c10Case(w *core.Worker, i int) {
 	copyDir(base, clean)
 	res := run(clean, nil, nil)
 	if res.Code != 0 {
-		w.Violation("clean-run-failed", fmt.Sprintf("the transaction itself failed: %s", res), c10Replay{Files: small(tx.files), Program: tx.program})
+		if strings.Contains(res.Stderr, "Fatal Error") || strings.Contains(res.Stderr, "panic:") {
+			w.Violation("clean-run-internal-failure", fmt.Sprintf("the transaction itself failed internally: %s", res), c10Replay{Files: small(tx.files), Program: tx.program})
+		} else {
+			w.Inconclusive(fmt.Sprintf("the generated transaction fails by itself: %s", res))
+		}
 		return
 	}
 	newSnap := core.TakeSnap(clean)
